@@ -64,6 +64,41 @@ pub fn inv(q: P2, face: u8) -> Result<V3, String> {
     Ok(from_spherical(s))
 }
 
+/// The same point of the sphere, handed to `forward` with its theta wound by whole turns (any finite longitude is admitted
+/// upstream). The wound coordinate pair IS the input: its true direction is computed here, in the library's own frame, with
+/// libm's exactly reduced sin / cos, and the round trip is judged against that. A forward projection that selects its triangle
+/// from the unreduced angle drifts by theta x 1e-16 and mis-selects in a sliver along each seam.
+pub fn check_wound(run: &mut Run, s: Spherical, face: u8, class: &str, h: u64) {
+    let turns = 10f64.powi(2 + (h % 7) as i32) * (1.0 + ((h >> 8) % 9) as f64);
+    let sign = if (h >> 20) & 1 == 0 { 1.0 } else { -1.0 };
+    let theta = s.theta().get() + sign * turns * std::f64::consts::TAU;
+    check_wound_at(run, theta, s.phi().get(), face, class, sign * turns);
+}
+
+pub fn check_wound_at(run: &mut Run, theta: f64, phi: f64, face: u8, class: &str, turns: f64) {
+    let dir = |t: f64, p: f64| -> V3 { [p.sin() * t.cos(), p.sin() * t.sin(), p.cos()] };
+    let u = dir(theta, phi);
+    let case = || json!({"theta": hx(theta), "phi": hx(phi), "theta_dec": theta, "turns": turns, "face": face, "class": class});
+    run.count("sphere.wound_theta");
+    let out = flatten(guard(|| {
+        let d = DodecahedronProjection::get_thread_local();
+        let q = d.forward(Spherical::new(Radians::new_unchecked(theta), Radians::new_unchecked(phi)), face)?;
+        let b = d.inverse(q, face)?;
+        Ok::<_, String>((q, b))
+    }));
+    match out {
+        Ok((q, b)) => {
+            run.evaluations += 1;
+            let e = chord_angle(u, dir(b.theta().get(), b.phi().get()));
+            if run.margin("wound_theta.round_trip_rad", e, 1e-12, case) {
+                run.violation("C15.roundtrip_wound", case(), format!("inverse(forward(p)) is {:.3e} rad from p when p is given with theta = {theta} (face {face}, planar point ({}, {}))", e, q.x(), q.y()));
+            }
+            run.nontrivial(mix(theta.to_bits(), mix(phi.to_bits(), face as u64)));
+        }
+        Err(e) => run.violation("C15.ok", case(), format!("projection of a point given with a wound theta failed: {e}")),
+    }
+}
+
 fn faces_by_distance(p: V3) -> [(u8, f64); 12] {
     let mut d = [(0u8, 0.0); 12];
     for (i, c) in face_centres().iter().enumerate() {
@@ -258,6 +293,24 @@ fn run_c15(ctx: &Ctx) -> Run {
                 };
                 run.count(class);
                 check_plane_point(run, q, face, class);
+                if rng.chance(0.25) {
+                    // a point of the face (on a triangle seam as exactly as the plane allows, every other time), unprojected and then
+                    // presented to `forward` with its theta wound by 1e2 .. 9e8 turns
+                    let q = if rng.chance(0.5) {
+                        let az = (36.0 * rng.below(10) as f64).to_radians();
+                        let r = rng.range(0.02, 0.98) * if rng.chance(0.5) { D_EDGE } else { 0.7 * D_EDGE };
+                        [r * az.cos(), r * az.sin()]
+                    } else {
+                        q
+                    };
+                    // winding rounds theta, which moves the point by up to half an ulp of the wound angle (1e-6 rad at 9e8
+                    // turns): only points that then still lie inside this face are covered by the nearest-face promise
+                    if convex_signed_dist(&face_pentagon(), q) < -1e-5 {
+                        if let Ok(s) = flatten(guard(|| DodecahedronProjection::get_thread_local().inverse(Face::new(q[0], q[1]), face))) {
+                            check_wound(run, s, face, class, rng.next());
+                        }
+                    }
+                }
                 // small-angle branches: sphere points within 1e-9 of a triangle corner, reached through the inverse
                 if class == "plane.corner_shortcut" {
                     if let Ok(v) = inv(q, face) {
@@ -280,6 +333,10 @@ fn replay_c15(check: &str, case: &Value, run: &mut Run) -> Option<()> {
         check_sphere_point(run, p, "replay");
         let o = faces_by_distance(p);
         println!("replay: nearest face {} forward {:?}; second face {} forward {:?}", o[0].0, fwd(p, o[0].0), o[1].0, fwd(p, o[1].0));
+    } else if check == "C15.roundtrip_wound" || case.get("theta").is_some() {
+        let (theta, phi, face) = (parse_f(&case["theta"])?, parse_f(&case["phi"])?, case["face"].as_u64()? as u8);
+        check_wound_at(run, theta, phi, face, "replay", case["turns"].as_f64().unwrap_or(0.0));
+        println!("replay: forward(theta = {theta}, phi = {phi}; face {face}) and back: worst round trip {:?}", run.margins.get("wound_theta.round_trip_rad").map(|m| m.0));
     } else {
         let q = case.get("q")?.as_array()?;
         let q = [parse_f(&q[0])?, parse_f(&q[1])?];
@@ -646,11 +703,52 @@ fn margin_point(rng: &mut Rng) -> (P2, &'static str) {
     }
 }
 
+fn cell_reach(run: &mut Run, rng: &mut Rng, fr: &Frame) {
+    let class = *rng.pick(&["seam", "dvertex", "dvertex", "edgemid"]);
+    let (lon, lat) = gen::point(rng, fr, class);
+    let res = match rng.below(4) {
+        0 => 2 + rng.below(4) as i32,
+        _ => 2 + rng.below(28) as i32,
+    };
+    let Ok(id) = lookup(lon, lat, res) else { return };
+    let shape = flatten(guard(|| {
+        let cell = a5::core::serialization::deserialize(id)?;
+        let pent = a5::core::cell::get_pentagon(&cell)?;
+        Ok::<_, String>((cell.origin_id, pent.split_edges(4).get_vertices_vec().clone()))
+    }));
+    let Ok((face, outline)) = shape else { return };
+    run.count("cell_reach.cells");
+    let mut any_beyond = false;
+    for v in &outline {
+        let q = [v.x(), v.y()];
+        let (_, beyond) = sector(q);
+        if beyond {
+            any_beyond = true;
+            run.count("cell_reach.outline_points_beyond_the_edge");
+            let m = tri_margin_beyond(q);
+            if m < -1e-9 {
+                // beyond the edge and outside the reflected triangle: the monitor's assumed domain would be too small
+                run.count("cell_reach.outline_points_outside_the_reflected_triangle");
+                let r = (q[0] * q[0] + q[1] * q[1]).sqrt();
+                run.margin("cell_reach.depth_outside_the_reflected_triangle_rel", -m, f64::INFINITY, || json!({"q": q, "face": face, "id": hu(id), "rho": r}));
+                if run.wants_sample("cell_reach.outside") {
+                    run.sample("cell_reach.outside", || json!({"q": q, "face": face, "id": hu(id), "res": res, "barycentric_margin": m}));
+                }
+            }
+        }
+        check_jacobian(run, q, face, "cell_reach");
+    }
+    if any_beyond {
+        run.count("cell_reach.cells_straddling_a_face_edge");
+    }
+}
+
 fn run_c16(ctx: &Ctx) -> Run {
     silence_panics();
     let threads = ctx.threads;
     let mut out = parallel(threads, |w, run| {
         let mut rng = ctx.rng("C16", w);
+        let fr = Frame::new();
         let n = ctx.n(6_000_000, 300_000_000) / threads as u64;
         for i in 0..n {
             let (q, class) = margin_point(&mut rng);
@@ -670,6 +768,14 @@ fn run_c16(ctx: &Ctx) -> Run {
             if i % 4 == 0 {
                 let size = rng.log10(2.5, 5.0);
                 check_small_triangle(run, q, face, size, rng.range(0.0, 2.1));
+            }
+            if i % 16 == 3 {
+                // observed reach: the planar outline of a real cell that lies at a face edge or vertex (found by a lookup there),
+                // taken from the library's own `get_pentagon`. Every outline point is a point the inverse projection is really
+                // asked for, so it belongs to "the margin that cells reach into" whatever this monitor assumes about that margin:
+                // points beyond the edge AND outside the reflected triangle are counted (none may exist if the assumed domain is
+                // right), and the Jacobian is measured at all the others.
+                cell_reach(run, &mut rng, &fr);
             }
             if i % 8 == 1 {
                 // closer to the corners of the projection's triangles than a difference stencil can go: a small triangle at
